@@ -1116,6 +1116,11 @@ func (iqr *IQR) MergeIQRStatsResults(iqrs []*IQR) (bool, error) {
 
 	if statsType.IsSegmentStatsCmd() {
 		finalSegStatsMap := segStatsRes.GetSegStats()
+		// Keep the merged statistics with the merged result: a later merge
+		// starts from iqr.statsResults.segStatsMap. Without this, a column
+		// that the first merged IQR had no statistics for (its input was
+		// empty) kept only the contribution of the last IQR merged in.
+		iqr.statsResults.segStatsMap = finalSegStatsMap
 		err = iqr.CreateSegmentStatsResults(searchResults, finalSegStatsMap, searchResults.GetAggs().MeasureOperations)
 	} else {
 		err = iqr.CreateGroupByStatsResults(searchResults)
